@@ -401,8 +401,16 @@ func (b *bb) scenarioJoin() {
 			tr = append(tr, []int{i + 1})
 		}
 		cn := startCanary()
+		createdTr := time.Now()
 		outs, _, accepted, ok := b.runBatch(kind, ver, 100000, nocopy, tmo, inc, inCap, tr, func(int) { time.Sleep(gap) })
 		lag := cn.lag()
+		if ok && len(outs) > 1 {
+			// C09: no slice can be full here, so the first one (it is not the final one) must
+			// not arrive earlier than Timeout after the creation of the discipline
+			if d := outs[0].at.Sub(createdTr); d < tmo-2*time.Millisecond {
+				b.fail("C09 trickle %s %s: the first, non-maximal and non-final slice arrived %v after creation, Timeout %v", kind, ver, d, tmo)
+			}
+		}
 		if ok {
 			bound := tmo + tmo/time.Duration(100/inc) + slackBase + 3*lag
 			idx := 0
